@@ -250,6 +250,45 @@ def oracle(pop, date, sh, ctx):
     return fails
 
 
+def large_shard(desc):
+    """Large tables (> 1000 rows, > 100 children covering their own needs): generated populations
+    replicated with fresh unsorted ids, grouping functions vs reference (size-dependent numbering)."""
+    import datetime
+
+    sh = core.Shard()
+    known = core.load_known(PROP)
+    date = datetime.date.fromisoformat(desc["date"])
+    archs = ["adult_child", "adult_child", "couple_kids", "single_parent", "patchwork", "three_gen", "child_with_partner"]
+
+    def oracle(pop):
+        df = pop.df.copy()
+        young = (df["alter"] < 25) & (df["alter"] >= 15) & (df["p_id_einstandspartner"] < 0) & (df["p_id_elternteil_1"] >= 0)
+        df.loc[young, "eigenbedarf_gedeckt"] = True
+        k = -(-desc["rows"] // len(df))
+        big = popgen.replicate(df, k, seed=desc["seed"] % 2**31)
+        a = arrays_from_df(big)
+        order = list(range(len(big)))
+        code = code_units(a, order)
+        diffs, ref = compare_units(a, order, code)
+        for u in ("fg", "bg"):
+            if not U.refines(code[u], a["hh_id"]):
+                diffs.append((f"collision:{u}_id", f"{u}_id is shared by persons of different households in a table of {len(big)} rows"))
+        sh.nontrivial.add("L|" + core.digest([desc["date"], a["p_id"][:40], len(big)]))
+        sh.classes["large-table(>1000 rows)"] += 1
+        if int(big["eigenbedarf_gedeckt"].sum()) >= 100:
+            sh.classes["large-table-with>=100-own-needs-children"] += 1
+        sh.sample({"sub_check": "L", "rows": int(len(big)), "own_needs_children": int(big["eigenbedarf_gedeckt"].sum())}, limit=1)
+        fails = [core.Failure(k_, f"{date}: {m[:600]}") for k_, m in diffs]
+        for f in fails:
+            if f.key not in known:
+                f.case = popcheck.payload(big, date, kind="L")
+        return fails
+
+    core.explore(popgen.populations(date, mode="mid", max_households=3, archetypes=archs), oracle, n=desc["n"],
+                 seed=dates.sub_seed(desc["seed"], PROP, "large", desc["date"]), shard=sh, known=known, shrink=False)
+    return sh
+
+
 def run(tier, seed, t0):
     ages6 = [10, 20, 24, 25, 40, 70]
     ages4 = [10, 24, 25, 45]
@@ -262,6 +301,8 @@ def run(tier, seed, t0):
     if tier == "thorough":
         descs += [{"n": 5, "ages": [10, 24, 45], "part": i, "nparts": 32, "seed": seed, "every": 40} for i in range(32)]
     extra = [("vf.checks.c12", "exhaustive_shard", descs)]
+    big_days = [s_[0].isoformat() for s_ in dates.pick(dates.strata(), 8 if tier == "quick" else 32, seed, PROP, "large")]
+    extra.append(("vf.checks.c12", "large_shard", [{"date": d, "rows": 1500, "n": 3 if tier == "quick" else 10, "seed": dates.sub_seed(seed, "l", d)} for d in big_days]))
     return popcheck.run(__name__, tier, seed, t0, extra_descs=extra, exhaustive=False)
 
 
@@ -272,4 +313,9 @@ def replay(case):
         diffs, _ = compare_units(a, order, code)
         return [core.Failure(k, m) for k, m in diffs]
     df, date = popcheck.unpack(case)
+    if case.get("kind") == "L":
+        a = arrays_from_df(df)
+        order = list(range(len(df)))
+        diffs, _ = compare_units(a, order, code_units(a, order))
+        return [core.Failure(k, m[:600]) for k, m in diffs]
     return check_population(df, date)[0]
